@@ -45,7 +45,7 @@ TASK: make ONE realistic change to the library's non-test source that BREAKS thi
  (1) the library still compiles,
  (2) ALL existing tests still pass (run them),
  (3) the breakage needs something specific to manifest — a particular multi-step sequence of operations, an unusual input, a particular interleaving, or two cooperating sites that each look fine alone — NOT something that ordinary use would expose at once. Think of what a maintainer could plausibly introduce by a refactoring, an optimisation, a cache, an off-by-one, a reordered statement. Keep the change small (a few lines, at most ~30).
-Then write a demonstration: a Go test file test/seeddemo/seed_demo_test.go (package seeddemo, using only the library's public API) that FAILS with your change and PASSES on the original code — verify both (use `git stash` / `git stash pop`, or `git diff > x; git checkout .` and re-apply).
+Then write a demonstration: a Go test file test/seeddemo/seed_demo_test.go (package seeddemo, using only the library's public API) that FAILS with your change and PASSES on the original code — verify both (use `git diff > SEED/patch.diff; git apply -R SEED/patch.diff` and `git apply SEED/patch.diff` to switch; do NOT use `git stash`: the stash is shared with other worktrees).
 Finally create in {wt}/SEED/ : patch.diff (output of `git diff` for the library source change only, NOT including the demo test), demo_test.go (copy of the demonstration test), meta.json with keys property, name (a short-kebab-case name for the change), summary, needs_to_manifest, files_changed, how_verified.
 Finish with a short summary (<=8 lines): what you changed, what it needs to manifest, and the commands you ran with their results. Do not commit anything.
 """
